@@ -98,3 +98,66 @@ func F(in []T) []interface{} {
 	fn := sp.Func("F")
 	return fn != nil && len(loopVarAliases(c, fn)) == 1
 }
+
+// rangeStringByteIndex: `for i := range s` over a string steps rune by rune; a body that reads s[i] meant byte by byte and
+// skips the continuation bytes of every multi-byte character. Returns the s[i] sites.
+func rangeStringByteIndex(fn *ssa.Function) []ssa.Instruction {
+	var out []ssa.Instruction
+	core.EachInstr(fn, func(i ssa.Instruction) {
+		var x, idx ssa.Value
+		switch t := i.(type) {
+		case *ssa.Lookup:
+			x, idx = t.X, t.Index
+		case *ssa.Index:
+			x, idx = t.X, t.Index
+		default:
+			return
+		}
+		if b, isB := x.Type().Underlying().(*types.Basic); !isB || b.Info()&types.IsString == 0 {
+			return
+		}
+		for {
+			if cv, isC := idx.(*ssa.Convert); isC {
+				idx = cv.X
+				continue
+			}
+			break
+		}
+		ex, ok := idx.(*ssa.Extract)
+		if !ok || ex.Index != 1 {
+			return
+		}
+		nx, ok := ex.Tuple.(*ssa.Next)
+		if !ok || !nx.IsString {
+			return
+		}
+		if rg, ok := nx.Iter.(*ssa.Range); ok && rg.X == x {
+			out = append(out, i)
+		}
+	})
+	return out
+}
+
+// byteLoopSelfTest builds a four-line positive example for rangeStringByteIndex and requires it to be reported.
+func byteLoopSelfTest() bool {
+	const src = `package p
+func F(s string) []byte {
+	var out []byte
+	for i := range s {
+		out = append(out, s[i])
+	}
+	return out
+}`
+	fset := token.NewFileSet()
+	f, err := parser.ParseFile(fset, "p.go", src, 0)
+	if err != nil {
+		return false
+	}
+	pkg := types.NewPackage("p", "p")
+	sp, _, err := ssautil.BuildPackage(&types.Config{GoVersion: "go1.18"}, fset, pkg, []*ast.File{f}, ssa.SanityCheckFunctions)
+	if err != nil || sp == nil {
+		return false
+	}
+	fn := sp.Func("F")
+	return fn != nil && len(rangeStringByteIndex(fn)) == 1
+}
